@@ -10,6 +10,10 @@ from twosigma.memento.storage_filesystem import OnDiskPartition
 
 
 def value(level, key):
+    if key in ("e", "f"):  # two keys holding equal content, at every level (one stored object behind several entries)
+        return "same-content"
+    if key in ("g", "h"):
+        return None
     if key == "a":
         return level * 10 + 1
     if key == "b":
